@@ -72,6 +72,7 @@ def gen_value(rng):
 
 
 _counter = [0]
+SPECIAL_VALUES = [float('inf'), float('-inf'), -0.0, 0.0, 5e-324, 1.7976931348623157e308, 2.0 ** 53 + 2, -1.0, 10 ** 15, 1e-7, -2.5e-10]
 
 
 def gen_datapoint(rng):
@@ -80,6 +81,8 @@ def gen_datapoint(rng):
     if isinstance(v, float) and v != v:
       continue          # NaN is C12's
     _counter[0] += 1
+    if _counter[0] % 4 == 0:       # every run covers every special value, whatever the seed
+      v = SPECIAL_VALUES[(_counter[0] // 4) % len(SPECIAL_VALUES)]
     return (gen_name(rng) + 'n%d' % _counter[0], gen_ts(rng), v)
 
 
@@ -111,6 +114,28 @@ def pickle_frame(dps, proto):
 
 
 # ---- malformed frames (C11) ---------------------------------------------------------
+# (no bytes objects: protocol 2 pickles them through the global _codecs.encode, which makes the whole frame a rejected pickle)
+BAD_ENTRIES = [(None, (1.0, 2.0)), (5, (1.0, 2.0)), (3.5, (1.0, 2.0)), (('t',), (1.0, 2.0)), ('a', ('x', 2.0)),
+               ('a', (None, 2.0)), ('a', ([1], 2.0)), ('a', (1.0, {})), ('a', (1.0, 'y')), ('a', (10 ** 400, 2)),
+               ('a', (2, 10 ** 400)), ('a', (-10 ** 400, 1)), ('a', 1.0, 2.0), ('a',), 1, None, ('a', (1.0,)),
+               ('a', (1.0, 2.0, 3.0)), ('a', (float('nan'), 2.0)), ('a', (float('inf'), 2.0)), ('a', ()), (), 'str', ('a', None)]
+
+
+def mixed_pickle_frame(rng, dps):
+  """one pickle frame whose entry list interleaves the well-formed datapoints `dps` with malformed entries:
+  the frame must deliver exactly `dps`, in order"""
+  entries = [(n, (ts, v)) for n, ts, v in dps]
+  kinds = []
+  for _ in range(rng.randint(1, 3)):
+    be = rng.choice(BAD_ENTRIES)
+    entries.insert(rng.randint(0, len(entries)), be)
+    kinds.append(repr(be)[:24])
+  if rng.random() < 0.5:       # a malformed entry first, so that every good one comes after it
+    entries.insert(0, rng.choice(BAD_ENTRIES))
+  payload = pickle.dumps(entries, protocol=2)
+  return struct.pack('!L', len(payload)) + payload, 'mixed-entries'
+
+
 def bad_line(rng):
   k = rng.choice(['utf8', 'utf8b', 'fields2', 'fields4', 'number', 'nants', 'infts', 'empty', 'neginf', 'hugets',
                   'longbad', 'longutf8'])
@@ -179,8 +204,9 @@ def bad_pickle(rng):
 
 
 class Run(object):
-  def __init__(self, wm, proto, pickle_max=2 ** 20):
+  def __init__(self, wm, proto, pickle_max=2 ** 20, flow=False):
     self.wm, self.proto = wm, proto
+    wm.settings['USE_FLOW_CONTROL'] = flow             # read in connectionMade
     wm.settings['PICKLE_RECEIVER_MAX_LENGTH'] = pickle_max     # read by the receiver's constructor
     self.seen = []
     wm.events.metricReceived.handlers[:] = list(wm.base)
@@ -213,14 +239,19 @@ class Run(object):
   def close(self):
     self.wm.events.metricReceived.handlers[:] = list(self.wm.base)
     self.wm.state.connectedMetricReceiverProtocols.clear()
+    for ev, fn in ((self.wm.events.pauseReceivingMetrics, getattr(self.r, 'pauseReceiving', None)),
+                   (self.wm.events.resumeReceivingMetrics, getattr(self.r, 'resumeReceiving', None))):
+      while fn is not None and fn in ev.handlers:
+        ev.handlers.remove(fn)
+    self.wm.state.metricReceiversPaused = False
 
 
-def execute(wm, proto, frames, cuts, expected_dps):
+def execute(wm, proto, frames, cuts, expected_dps, res=0, pause_at=0):
   """frames: list of dict(bytes, kind, trip, dps); cuts: byte offsets (sorted) where the stream is cut
   (for udp: datagram boundaries, aligned with frames).  Returns the trace record."""
   stream = b''.join(f['bytes'] for f in frames)
   # the default maximum frame length unless the stream contains an over-long frame (kept small on purpose)
-  run = Run(wm, proto, pickle_max=PICKLE_MAX if any(f['kind'] == 'over' for f in frames) else 2 ** 20)
+  run = Run(wm, proto, pickle_max=PICKLE_MAX if any(f['kind'] == 'over' for f in frames) else 2 ** 20, flow=bool(pause_at))
   segs = []
   allids = {}
   nid = 0
@@ -234,14 +265,32 @@ def execute(wm, proto, frames, cuts, expected_dps):
     fr.append(dict(len=len(f['bytes']), kind=f['kind'], trip=f.get('trip', len(f['bytes'])), ids=ids, what=f.get('what', '')))
   index = {}
   for i, dp in allids.items():
-    index[key_of(dp)] = i      # names are unique per datapoint, so the content identifies the id
+    # names are unique per datapoint, so the content identifies the id; with MIN_TIMESTAMP_RESOLUTION
+    # the delivered timestamp is the sent one rounded down to a multiple of it (C12)
+    if res:
+      dp = (dp[0], int(dp[1]) // res * res, dp[2])
+    index[key_of(dp)] = i
   bounds = [0] + list(cuts) + [len(stream)]
   nseen = 0
+  wm.settings['MIN_TIMESTAMP_RESOLUTION'] = res
+  if pause_at:
+    # flow control: while the pause_at-th datapoint is being handled the cache reports full and the real
+    # events.pauseReceivingMetrics() pauses this receiver; it is resumed (cache drained) once the read in
+    # progress has been handled.  What is complete by then must be delivered by then.
+    def pauser(m, dp):
+      if len(run.seen) == pause_at:
+        wm.events.pauseReceivingMetrics()
+    wm.events.metricReceived.addHandler(pauser)
   try:
     for a, b in zip(bounds[:-1], bounds[1:]):
       if b <= a:
         continue
       esc = run.feed(stream[a:b])
+      if pause_at and wm.state.metricReceiversPaused:
+        try:
+          wm.events.resumeReceivingMetrics()
+        except Exception as e:
+          esc = 1
       new = run.seen[nseen:]
       ids = [index.get(key_of(dp), 0) for dp in new]
       nseen = len(run.seen)
@@ -250,6 +299,7 @@ def execute(wm, proto, frames, cuts, expected_dps):
         break       # a real transport stops reading once loseConnection() was called
   finally:
     run.close()
+    wm.settings['MIN_TIMESTAMP_RESOLUTION'] = 0
   return dict(proto=proto, mode='frames', ref=[], refclosed=0, frames=fr, segs=segs)
 
 
